@@ -1851,7 +1851,166 @@ theorem WF.step_nack {st : St} (h : WF st) (ids : List Id) (delays : List (Id ×
       obtain ⟨t, ht⟩ := hg d
       rw [ht]; exact ⟨rfl, rfl, rfl, rfl⟩
 
-/-- the fragment: clock advances, topic and subscription creation (no dead-letter policy), publishes
+theorem allIds_of_sub (db : Db) (s : Sub) (hs : s ∈ db.subs) : db.allIds.contains s.id = true := by
+  rw [List.contains_iff_mem]
+  unfold Db.allIds
+  simp only [List.mem_append, List.mem_map]
+  left; left; left; right
+  exact ⟨s, hs, rfl⟩
+
+/-- an operation that commits a result leaving deliveries, subscriptions and messages alone -/
+theorem WF.finish_same {α} {st : St} (h : WF st) (r : Except Err (TxOut α)) (render : α → String)
+    (hsame : ∀ o, r = .ok o → o.db.dels = st.db.dels ∧ o.db.subs = st.db.subs ∧ o.db.msgs = st.db.msgs) :
+    WF (finish st r render).1 := by
+  cases r with
+  | error e => exact h
+  | ok o =>
+    obtain ⟨h1, h2, h3⟩ := hsame o rfl
+    simp only [finish]
+    have hok : Ord.stepOk true st.db st.now o.db st.now = true :=
+      Ord.stepOk_of_same st.db st.now o.db st.now (Int.le_refl _) h1 h2 h3
+    refine ⟨h.inv.step hok, ?_, ?_, ?_, ?_, ?_, ?_⟩
+    · rw [h1]; intro d hd
+      have := h.fkM d hd
+      unfold Db.msgById at *; rw [h3]; exact this
+    · rw [h1, h2]; exact h.fkS
+    · rw [h2]; exact h.uqS
+    · intro s hs; exact allIds_of_sub o.db s hs
+    · rw [h1]; exact h.clk
+    · rw [h2]; exact h.noDL
+
+theorem WF.step_deleteTopic {st : St} (h : WF st) (n : String) : WF (Mmmbbb.step st (.deleteTopic n)).1 := by
+  simp only [Mmmbbb.step]
+  apply h.finish_same
+  intro o ho
+  unfold deleteTopic at ho
+  simp only at ho
+  split at ho
+  · cases ho
+  · injection ho with ho; subst ho; exact ⟨rfl, rfl, rfl⟩
+
+theorem WF.step_deleteSnap {st : St} (h : WF st) (n : String) : WF (Mmmbbb.step st (.deleteSnap n)).1 := by
+  simp only [Mmmbbb.step]
+  apply h.finish_same
+  intro o ho
+  unfold deleteSnapshot at ho
+  split at ho
+  · cases ho
+  · injection ho with ho; subst ho; exact ⟨rfl, rfl, rfl⟩
+
+theorem WF.step_snapshot {st : St} (h : WF st) (n s : String) (l : StrMap) (i : Id) :
+    WF (Mmmbbb.step st (.snapshot n s l i)).1 := by
+  simp only [Mmmbbb.step]
+  apply h.finish_same
+  intro o ho
+  exact ⟨createSnapshot_dels ho, by
+    unfold createSnapshot at ho
+    split at ho
+    · cases ho
+    · split at ho
+      · cases ho
+      · split at ho
+        · cases ho
+        · injection ho with ho; subst ho; exact ⟨rfl, rfl⟩⟩
+
+/-- subscriptions rewritten in place: identity kept, and whatever is live afterwards was live before
+    with the same ordering flag and retention (subscriptions may be deleted, or change fields the
+    obligation does not read) -/
+theorem subsOk_of_kill (db db' : Db) (gs : Sub → Sub) (hs : db'.subs = db.subs.map gs)
+    (hgs : ∀ s ∈ db.subs, (gs s).id = s.id ∧
+      ((gs s).live = true → s.live = true ∧ (gs s).ordered = s.ordered ∧ (gs s).messageTtl = s.messageTtl)) :
+    subsOk db db' = true := by
+  unfold subsOk
+  rw [hs]
+  apply List.all_eq_true.mpr
+  intro s' hs'
+  obtain ⟨s, hsm, rfl⟩ := List.mem_map.mp hs'
+  obtain ⟨h1, h2⟩ := hgs s hsm
+  cases hl : (gs s).live with
+  | false => simp
+  | true =>
+    obtain ⟨a, b, c⟩ := h2 hl
+    simp only [Bool.not_true, Bool.false_or, Bool.or_eq_true, List.any_eq_true, Bool.and_eq_true, beq_iff_eq]
+    left
+    exact ⟨s, hsm, ⟨⟨⟨a, h1.symm⟩, b.symm⟩, c.symm⟩⟩
+
+/-- a step that only rewrites subscriptions that way keeps the fragment's invariants -/
+theorem WF.of_subs_kill {st st' : St} (h : WF st) (gs : Sub → Sub)
+    (hd : st'.db.dels = st.db.dels) (hs : st'.db.subs = st.db.subs.map gs) (hm : st'.db.msgs = st.db.msgs)
+    (hnow : st'.now = st.now)
+    (hgs : ∀ s, (gs s).id = s.id ∧ (∀ d, (gs s).dlTarget d = s.dlTarget d) ∧
+      ((gs s).live = true → s.live = true ∧ (gs s).ordered = s.ordered ∧ (gs s).messageTtl = s.messageTtl)) :
+    WF st' := by
+  have hok : Ord.stepOk true st.db st.now st'.db st'.now = true := by
+    unfold Ord.stepOk
+    simp only [Bool.and_eq_true, decide_eq_true_eq, Bool.or_eq_true]
+    refine ⟨⟨by rw [hnow]; exact Int.le_refl _, subsOk_of_kill st.db st'.db gs hs (fun s _ => ⟨(hgs s).1, (hgs s).2.2⟩)⟩, Or.inl ?_⟩
+    unfold Ord.growOk
+    rw [hd]
+    simp only [List.take_length, List.drop_length, Bool.and_eq_true]
+    exact ⟨Ord.rowsUpdOk_refl st.db st.now st'.db hm st.db.dels, rfl⟩
+  refine ⟨h.inv.step hok, ?_, ?_, ?_, ?_, ?_, ?_⟩
+  · rw [hd]; intro d hdm
+    have := h.fkM d hdm
+    unfold Db.msgById at *; rw [hm]; exact this
+  · rw [hd, hs]; intro d hdm
+    obtain ⟨s0, hs0, hid⟩ := h.fkS d hdm
+    exact ⟨gs s0, List.mem_map.mpr ⟨s0, hs0, rfl⟩, by rw [(hgs s0).1]; exact hid⟩
+  · rw [hs]; intro a ha b hb hla hlb hid
+    obtain ⟨a0, ha0, rfl⟩ := List.mem_map.mp ha
+    obtain ⟨b0, hb0, rfl⟩ := List.mem_map.mp hb
+    have := h.uqS a0 ha0 b0 hb0 ((hgs a0).2.2 hla).1 ((hgs b0).2.2 hlb).1
+      (by rw [← (hgs a0).1, ← (hgs b0).1]; exact hid)
+    rw [this]
+  · intro s hsm; exact allIds_of_sub st'.db s hsm
+  · rw [hd, hnow]; exact h.clk
+  · rw [hs]; intro s hsm d
+    obtain ⟨s0, hs0, rfl⟩ := List.mem_map.mp hsm
+    rw [(hgs s0).2.1 d]; exact h.noDL s0 hs0 d
+
+theorem kill_fields (p : Sub → Bool) (now : Time) (s : Sub) :
+    (if p s = true then { s with deletedAt := some now } else s).id = s.id ∧
+    (∀ d, (if p s = true then { s with deletedAt := some now } else s).dlTarget d = s.dlTarget d) ∧
+    ((if p s = true then { s with deletedAt := some now } else s).live = true →
+      s.live = true ∧ (if p s = true then { s with deletedAt := some now } else s).ordered = s.ordered ∧
+      (if p s = true then { s with deletedAt := some now } else s).messageTtl = s.messageTtl) := by
+  by_cases hp : p s = true
+  · rw [if_pos hp]
+    refine ⟨rfl, fun _ => rfl, ?_⟩
+    intro hl; simp [Sub.live] at hl
+  · rw [if_neg hp]
+    exact ⟨rfl, fun _ => rfl, fun hl => ⟨hl, rfl, rfl⟩⟩
+
+theorem WF.step_deleteSub {st : St} (h : WF st) (n : String) : WF (Mmmbbb.step st (.deleteSub n)).1 := by
+  simp only [Mmmbbb.step]
+  cases hc : deleteSub st.db st.now n with
+  | error e => simp only [finish]; exact h
+  | ok o =>
+    simp only [finish]
+    unfold deleteSub at hc
+    simp only at hc
+    split at hc
+    · cases hc
+    · injection hc with hc; subst hc
+      exact h.of_subs_kill (fun s => if (s.name == n && s.live) = true then { s with deletedAt := some st.now } else s)
+        rfl rfl rfl rfl (fun s => kill_fields (fun s => s.name == n && s.live) st.now s)
+
+theorem WF.step_expireSubs {st : St} (h : WF st) (mx : Nat) (v : List Id) : WF (Mmmbbb.step st (.expireSubs mx v)).1 := by
+  simp only [Mmmbbb.step]
+  cases hc : expireSubs st.db st.now mx v with
+  | error e => simp only [finish]; exact h
+  | ok o =>
+    simp only [finish]
+    unfold expireSubs at hc
+    simp only at hc
+    split at hc
+    · cases hc
+    · injection hc with hc; subst hc
+      exact h.of_subs_kill (fun s => if (v.contains s.id) = true then { s with deletedAt := some st.now } else s)
+        rfl rfl rfl rfl (fun s => kill_fields (fun s => v.contains s.id) st.now s)
+
+/-- the fragment: clock advances, topic creation and deletion, subscription creation (no dead-letter
+    policy), deletion and expiry, snapshot creation and deletion, publishes
     (single and batched, the clock ticking between messages), pulls (waiting or not), deadline changes
     (positive, zero — the nack of a client library — and negative), nacks, acknowledgements of deliveries that
     have been handed out (the only ack ids a client can hold), and the two jobs that delete
@@ -1859,7 +2018,12 @@ theorem WF.step_nack {st : St} (h : WF st) (ids : List Id) (delays : List (Id ×
 def fragOk (st : St) : Op → Prop
   | .advance d => 0 ≤ d
   | .createTopic _ _ _ => True
+  | .deleteTopic _ => True
+  | .snapshot _ _ _ _ => True
+  | .deleteSnap _ => True
   | .createSub p _ => p.maxAttempts = 0
+  | .deleteSub _ => True
+  | .expireSubs _ _ => True
   | .publish _ tick _ => 0 < tick
   | .pull _ _ _ _ wait _ => 0 ≤ wait
   | .ack ids => ∀ d ∈ st.db.dels, ids.contains d.id = true → 0 < d.attempts
@@ -1880,7 +2044,12 @@ theorem WF.step {st : St} (h : WF st) (op : Op) (hf : fragOk st op) : WF (Mmmbbb
   cases op with
   | advance d => exact h.step_advance d hf
   | createTopic n l i => exact h.step_createTopic n l i
+  | deleteTopic n => exact h.step_deleteTopic n
+  | snapshot n s l i => exact h.step_snapshot n s l i
+  | deleteSnap n => exact h.step_deleteSnap n
   | createSub p i => exact h.step_createSub p i hf
+  | deleteSub n => exact h.step_deleteSub n
+  | expireSubs mx v => exact h.step_expireSubs mx v
   | publish t tick ms => exact h.step_publish_many t tick ms hf
   | pull sn mx mb strict wait obs => exact h.step_pull sn mx mb strict wait obs hf
   | ack ids => exact h.step_ack ids hf
@@ -1896,8 +2065,9 @@ theorem WF.run : ∀ (ops : List Op) (st : St), WF st → fragRun st ops → WF 
     rw [run_cons]
     exact WF.run r _ (h.step op hf.1) hf.2
 
-/-- **C05 on the fragment, outright**: for *every* history of clock advances, topic and subscription
-    creations (without dead-letter policy), publishes (single and batched) with an advancing clock,
+/-- **C05 on the fragment, outright**: for *every* history of clock advances, topic creations and
+    deletions, subscription creations (without dead-letter policy), deletions and expiries, snapshot
+    creations and deletions, publishes (single and batched) with an advancing clock,
     pulls, deadline changes, nacks, acknowledgements of handed-out
     deliveries and runs of the jobs that delete acknowledged or expired deliveries — any number of
     subscriptions, keys, un-keyed messages in between, pulls of any size, acks in any order, lease
